@@ -744,10 +744,27 @@ pub fn build_mirror_ext(t: &Trial, pre_mem: &[Vec<u8>], ext: usize) -> Result<Ax
     Ok(ax)
 }
 
+fn stopping_before_hook(ax: &mut Axecutor, _: ax_x86::auto::generated::SupportedMnemonic) -> Result<ax_x86::state::hooks::HookResult, Box<dyn std::error::Error>> {
+    ax.stop();
+    Ok(ax_x86::state::hooks::HookResult::Unhandled)
+}
+
 pub fn run_emu(t: &Trial, pre_mem: &[Vec<u8>]) -> EmuPost {
     let built = catch(|| build_mirror(t, pre_mem));
     let ax = match built {
-        Ok(Ok(ax)) => ax,
+        Ok(Ok(mut ax)) => {
+            // In one trial of eight (a function of the trial) a before hook of the instruction's own mnemonic calls
+            // stop(): the run is over after this instruction, but the instruction itself still happens - its effects
+            // and its refusal are the CPU's all the same.
+            if (t.gpr[5] ^ t.gpr[6].rotate_left(13) ^ t.gpr[7].rotate_left(29) ^ t.flags) % 8 == 0 {
+                if let Some(ins) = gen::decode(&t.code, t.rip) {
+                    if let Ok(sm) = ax_x86::auto::generated::SupportedMnemonic::try_from(ins.mnemonic()) {
+                        let _ = catch(|| ax.hook_before_mnemonic_native(sm, &stopping_before_hook));
+                    }
+                }
+            }
+            ax
+        }
         Ok(Err(e)) => {
             return EmuPost {
                 result: EmuResult::Err { msg: format!("mirror construction failed: {e}"), rej: Rejection::None },
